@@ -5,6 +5,7 @@ import (
 	"fmt"
 	"sort"
 	"strings"
+	"sync"
 	"sync/atomic"
 	"time"
 
@@ -79,8 +80,61 @@ func runSession(tw *toolWorld, cases []tooldriver.Case, timeout time.Duration) [
 			fatalHarness("bad child response: %v: %.200s", err, line)
 		}
 		out[i] = outcome{Status: "ok", Res: &res}
+		noteSteps(&cases[i], &res)
 	}
 	return out
+}
+
+// logical time used by the tool-world runs of this process (instrumentation
+// steps of pigeon's own packages), for the evidence and for sizing the step cap
+var stepStats struct {
+	sync.Mutex
+	runs, capHits     int64
+	total, max        int64
+	maxPerByte        float64
+	maxAt, maxPerByAt string
+}
+
+// caseInputLen is the length of the grammar text the case delivers.
+func caseInputLen(c *tooldriver.Case) int {
+	if g, ok := c.Files["grammar.peg"]; ok {
+		return len(g)
+	}
+	return len(c.Stdin)
+}
+
+// stepCapFor is the logical-time bound of one tool run on a grammar of n
+// bytes: 5 million steps plus 50 000 per byte. The repository's largest
+// grammar needs 3.2 million in all; the costliest inputs of the thorough tier
+// stay below 2 200 steps per byte (evidence: logical_time).
+func stepCapFor(n int) int64 { return 5_000_000 + 50_000*int64(n+64) }
+
+func noteSteps(c *tooldriver.Case, res *tooldriver.Result) {
+	stepStats.Lock()
+	defer stepStats.Unlock()
+	n := caseInputLen(c)
+	for i := range res.Runs {
+		st := res.Runs[i].Steps
+		stepStats.runs++
+		stepStats.total += st
+		if res.Runs[i].StepCapHit {
+			stepStats.capHits++
+			continue
+		}
+		if st > stepStats.max {
+			stepStats.max, stepStats.maxAt = st, c.ID
+		}
+		if per := float64(st) / float64(n+64); per > stepStats.maxPerByte {
+			stepStats.maxPerByte, stepStats.maxPerByAt = per, c.ID
+		}
+	}
+}
+
+func stepEvidence() map[string]any {
+	stepStats.Lock()
+	defer stepStats.Unlock()
+	return map[string]any{"runs": stepStats.runs, "steps_total": stepStats.total, "steps_max_in_one_run": stepStats.max, "steps_max_case": stepStats.maxAt,
+		"steps_per_input_byte_max": stepStats.maxPerByte, "steps_per_input_byte_max_case": stepStats.maxPerByAt, "runs_stopped_by_step_cap": stepStats.capHits}
 }
 
 func headTail(s string, h, t int) string {
